@@ -136,7 +136,8 @@ volume is unchanged.  In dimension 2 star-shapedness and non-degeneracy of the c
 shows every deleted simplex was answered True and every kept neighbour False), a locally Delaunay triangulation across
 the cavity boundary and opposite sides around the cavity, an accepted interior insertion conserves the total area
 (`bowyer_watson_truthful_preserves_area_2d`, `add_point_truthful_preserves_area_2d`).  STILL MISSING: the local tiling
-and local Delaunay properties as INVARIANTS of the insertion sequence, dimension 3 of the star-shapedness, the hull-extension path, the
+and local Delaunay properties as INVARIANTS of the insertion sequence, the hull-extension path (dimension 3 of the
+star-shapedness derivation: `Props/C03Dim3.lean`, `Lemmas/TriDelaunay3*.lean`, same statements with spheres), the
 cover/disjointness clauses as sets (only their volume shadow is proved), and Delaunay.  On the real code the
 clauses are audited exactly after every insertion by `harness/tri_drive.py`. -/
 def tiles_hull_statement : Prop :=
